@@ -10,3 +10,15 @@ add("C11", "exploration",
     "Every load's complete I/O history (open/seek/read with offsets and sizes) is recorded by an instrumented fsspec filesystem and checked offline against group extents computed from the model: reads inside the file, inside one rpc-group overlapping the requested span, at most one per group, no other file touched; open-time reads front to back and at most ceil(lines/rpc) after the 720-byte descriptor.",
     "The requested line span is taken from a NumPy-backed control backend under xarray's lazy layer (what xarray asks a BASIC backend for), not from the repository. Trusted: tracefs file objects behave like real files.",
     "offline checker over a recorded event log from a tracing filesystem", "DESIGN.md §4 C11")
+add("C06", "exploration",
+    "Metamorphic monitor: one product is opened with a class-covering set of records_per_chunk values (plus an exhaustive lines x rpc block); the complete canonical leaf maps (every node, variable, attribute, encoding, loaded value) must be pairwise equal except the image variables' preferred chunk sizes, which are checked against min(rpc, lines) x pixels.",
+    "Trusted: canon's leaf map is complete over the DataTree; products are synthetic with random content in every record.",
+    "metamorphic differential monitor over complete trees", "DESIGN.md §4 C06")
+add("C12", "exploration",
+    "Invariant walk over every node, variable and attribute of trees produced by the real reader on seeded products of all levels: numpy dtype of an allowed kind, declared shape/dtype equal loaded ones (also for random selections), plain attributes, repr/html-repr/nbytes succeed. The level-1.1 nested sub-struct coordinates are an open known finding keyed to their five names; any other object-dtype variable is a new violation.",
+    "Allowed attribute leaves include numpy scalars of plain kinds (not stricter than the statement).",
+    "invariant monitor (tree walk at the API boundary) + wrapper invariant contract", "DESIGN.md §4 C12")
+add("C13", "exploration",
+    "Reference-model monitor: products with 1-8 images over polarisation x scan combinations, every file carrying distinct pixels and line numbers; children of /, /imagery (names, order), /metadata, /summary, root attribute names and text values, coordinate promotion and removal of the bookkeeping attribute are compared with the model; summaries shuffled, CRLF, several hash seeds.",
+    "Naming rule and volume attribute table are frozen documentation (vf/speclib.py).",
+    "reference-model monitor at the DataTree boundary", "DESIGN.md §4 C13")
